@@ -310,7 +310,14 @@ def _get_function_insertion_lineno(
 def _get_constant_insertion_lineno(scope: ast.AST) -> int:
     import_types = (ast.Import, ast.ImportFrom)
     imports = [node for node in scope.body if not isinstance(node, import_types)]
-    return min((node.lineno for node in imports)) - 1
+    # A decorated definition starts at its first decorator
+    return (
+        min(
+            min([node.lineno, *(d.lineno for d in getattr(node, "decorator_list", []))])
+            for node in imports
+        )
+        - 1
+    )
 
 
 def create_abstractions(source: str) -> str:
